@@ -27,7 +27,72 @@ def dec(v, M):
             return M.mesh.from_arrays(np.array(v["cloud"], dtype=float))
         if "polyline" in v:
             return M.mesh.from_arrays(np.array(v["polyline"]["V"], dtype=float), E=np.array(v["polyline"]["E"], dtype=int).reshape(-1, 2))
+        if "used" in v:
+            return used_mesh(v["used"], M)
     return v
+
+
+def persistent_attribute_functions(M):
+    """every function of mouette.attributes that stores its result on the mesh by default: f(mesh, ..., persistent=True, ...)"""
+    import inspect
+    out = []
+    for name in sorted(dir(M.attributes)):
+        f = getattr(M.attributes, name)
+        if name.startswith("_") or not callable(f) or inspect.isclass(f):
+            continue
+        try:
+            ps = list(inspect.signature(f).parameters.values())
+        except (TypeError, ValueError):
+            continue
+        if not ps or ps[0].name != "mesh" or "persistent" not in [p.name for p in ps]:
+            continue
+        if any(p.default is inspect.Parameter.empty for p in ps[1:]):
+            continue
+        out.append((name, f))
+    return out
+
+
+def containers(m):
+    return [(n, getattr(m, n)) for n in ("vertices", "edges", "faces", "face_corners", "cells", "cell_corners", "cell_faces") if hasattr(m, n)]
+
+
+def used_mesh(spec, M):
+    """A mesh that has been worked with before it reaches the generator:
+       1. every persistent attribute function of mouette.attributes has been called on it (those that accept it);
+       2. optionally the stored values were then overwritten by junk of the same arity (user attributes of the same names);
+       3. then the geometry was edited: translation, scale, anisotropic stretch, one vertex moved."""
+    import numpy as np
+    m = dec(spec["base"], M)
+    called = []
+    for name, f in persistent_attribute_functions(M):
+        try:
+            f(m)
+            called.append(name)
+        except Exception:  # noqa  (wrong mesh type, non-triangular faces, ...)
+            pass
+    USED_LOG.append(called)
+    if spec.get("junk"):
+        for cname, cont in containers(m):
+            for an in list(getattr(cont, "attributes", [])):
+                try:
+                    a = cont.get_attribute(an)
+                    for i in range(len(cont)):
+                        old = a[i]
+                        a[i] = (np.asarray(old) * 0 + 977.25 + i).astype(np.asarray(old).dtype) if np.ndim(old) else type(old)(977 + i)
+                except Exception:  # noqa
+                    pass
+    e = spec.get("edit", {})
+    sc = np.array(e.get("scale", [1.0, 1.0, 1.0]), dtype=float)
+    tr = np.array(e.get("translate", [0.0, 0.0, 0.0]), dtype=float)
+    for i in range(len(m.vertices)):
+        m.vertices[i] = M.Vec(np.asarray(m.vertices[i], dtype=float) * sc + tr)
+    if e.get("move") is not None and len(m.vertices):
+        k = e["move"][0] % len(m.vertices)
+        m.vertices[k] = M.Vec(np.asarray(m.vertices[k], dtype=float) + np.array(e["move"][1:], dtype=float))
+    return m
+
+
+USED_LOG = []
 
 
 def build_args(c, M):
@@ -81,6 +146,14 @@ def call(c, M, keep=None):
     if keep is not None:
         keep["args"], keep["kw"] = args, kw
         keep["before"] = [snapshot(a) for a in args] + [snapshot(kw[k]) for k in sorted(kw)]
+        keep["inputs"] = {}
+        for k, a in list(kw.items()) + [("arg%d" % i, a) for i, a in enumerate(args)]:
+            if hasattr(a, "vertices"):
+                keep["inputs"][k] = {"type": type(a).__name__, "V": len(a.vertices),
+                                     "X": [[float(t) for t in p] for p in a.vertices],
+                                     "F": [[int(t) for t in f] for f in a.faces] if hasattr(a, "faces") else [],
+                                     "E": [[int(t) for t in e_] for e_ in a.edges] if hasattr(a, "edges") else [],
+                                     "attrs": {n: sorted(getattr(c_, "attributes", [])) for n, c_ in containers(a)}}
     r = fn(*args, **kw)
     if keep is not None:
         after = [snapshot(a) for a in args] + [snapshot(kw[k]) for k in sorted(kw)]
@@ -178,6 +251,8 @@ def main():
             res.append({"exc": "%s" % (ex,), "exc_type": type(ex).__name__, "defaults_unchanged": defaults_snapshot(c, M) == d0})
             continue
         ob["args_unchanged"] = keep.get("args_unchanged")
+        ob["inputs"] = keep.get("inputs", {})
+        ob["used_calls"] = USED_LOG[-1] if USED_LOG and "used" in json.dumps(c.get("kw", {}))[:4000] else None
         ob["defaults_unchanged"] = defaults_snapshot(c, M) == d0
         # the caller's arrays edited after the call must not move the mesh
         try:
